@@ -779,7 +779,11 @@ func (w *world) apply(s step) string {
 		return out.String()
 	}
 	if errno == 0 && (mutatingOps[s.Op] && s.Op != "sync" && s.Op != "datasync" && s.Op != "set_flags") {
-		w.labels["mutating-op-returned-success-"+s.Op]++
+		if mut {
+			w.labels["mutating-op-returned-success-on-ro-target-"+s.Op]++
+		} else {
+			w.labels["mutating-op-returned-success-elsewhere-"+s.Op]++
+		}
 	}
 	return fmt.Sprintf("errno=%d", errno)
 }
